@@ -27,9 +27,11 @@ open GIV
 def slice? (s : Bytes) (lo hi : Nat) : Option Bytes :=
   if lo ≤ hi ∧ hi ≤ s.length then some ((s.take hi).drop lo) else none
 
-/-- `bytes.HasPrefix(s, prefix)`: `len(s) >= len(prefix) && Equal(s[:len(prefix)], prefix)`. -/
+/-- `bytes.HasPrefix(s, prefix)`: `len(s) >= len(prefix) && Equal(s[:len(prefix)], prefix)`.
+(`take` truncates, so the length test is implied by the comparison; not computing `len(s)` keeps
+`bytes.Index` below linear per position.) -/
 def hasPrefix (s pre : Bytes) : Bool :=
-  decide (pre.length ≤ s.length) && (s.take pre.length == pre)
+  s.take pre.length == pre
 
 /-- `bytes.HasSuffix(s, suffix)`: `len(s) >= len(suffix) && Equal(s[len(s)-len(suffix):], suffix)`. -/
 def hasSuffix (s suf : Bytes) : Bool :=
@@ -197,10 +199,10 @@ def quoteIdx (data : Bytes) : Except QErr Bytes :=
   if data.length = 0 then .ok [] else
   if data[data.length - 1]? ≠ some NL then .error .noFinalNewline else
   if !utf8Valid data then .error .notUTF8 else
-  let (nd, _) := data.foldl (fun (st : Bytes × UInt8) b =>
-    let nd := if st.2 = NL then st.1 ++ [62] else st.1
-    (nd ++ [b], b)) ([], NL)
-  .ok nd
+  let (nd, _) := data.foldl (fun (st : Array UInt8 × UInt8) b =>
+    let nd := if st.2 = NL then st.1.push 62 else st.1
+    (nd.push b, b)) (#[], NL)
+  .ok nd.toList
 
 /-- `Unquote`.
 
